@@ -357,6 +357,24 @@ def check(pid, tier, seed, replay=None):
     cq = coq_property(pid, prop)
     proof_broken += cq["broken"]
 
+    # 2b. thorough tier: independent re-check of the compiled property with coqchk
+    coqchk = None
+    if tier == "thorough" and not cq["broken"]:
+        cdir = prop.get("coq_dir", pid)
+        try:
+            with Lock("coq"):
+                rc, o = run(["coqchk", "-silent", "-o", "-Q", ".", "PV", "PV.%s.Property" % cdir], cwd=COQ, timeout=3000)
+        except subprocess.TimeoutExpired:
+            rc, o = 124, "coqchk timed out"
+        m = re.search(r"\* Axioms:(.*?)\n\s*\n\* Constants/Inductives relying on type-in-type:(.*?)\n", o, re.S)
+        axs = re.sub(r"\s+", " ", m.group(1)).strip() if m else "?"
+        coqchk = {"exit": rc, "axioms": axs, "tail": o[-600:]}
+        allowed_chk = prop.get("allowed_coqchk_axioms", [])
+        if rc != 0:
+            proof_broken.append("coqchk failed on PV.%s.Property: %s" % (cdir, o[-400:]))
+        elif axs != "<none>" and not all(a.strip() in allowed_chk for a in axs.split() if a.strip()):
+            proof_broken.append("coqchk reports axioms: " + axs)
+
     # 3. model + harness
     stats = {}
     mism = []
@@ -458,6 +476,7 @@ def check(pid, tier, seed, replay=None):
                    "known": sorted(seen_known.keys()), "unlisted": len(unknown)},
         "distribution": stats.get("distribution", {}),
         "extra": stats.get("extra", {}),
+        "coqchk": coqchk,
         "proof_obligations_broken": proof_broken,
         "correspondence_broken": [c[:400] for c in corr_broken],
     }
